@@ -130,3 +130,22 @@ Definition p1_verdict (c : p1part) : N :=
 Definition ccase := (p3part * p1part)%type.
 Definition core_verdict (c : ccase) : N := maxN (p3_verdict (fst c)) (p1_verdict (snd c)).
 Definition core_verdicts (cs : list ccase) : list N := map core_verdict cs.
+
+(* ---------- gated and uncontrolled runs: schedule forced from the harness side only ----------
+   (app-level gates inside update / view / task futures; no hook of the crux source is a parking
+   point, threads may block on the model lock and race for it).  Only the outcome predicates are
+   evaluated, plus the conservation invariant of the event channel sampled at the intermediate
+   states where every thread is parked, finished or blocked:
+   events sent = events applied + events queued  (lengths of Events.C08_event_order) *)
+Definition C08_conserved (samples : list (nat * nat * nat)) : bool :=
+  forallb (fun x => let '(sent, applied, queued) := x in Nat.eqb sent (applied + queued)) samples.
+
+Definition gcase := (ccase * list (nat * nat * nat))%type.
+
+Definition gate_verdict (c : gcase) : N :=
+  let '((p3, p1), samples) := c in
+  let '(_, log, views, sent, directs) := p3 in
+  let '(_, expected, returned, lens, pe, pok) := p1 in
+  if C08_e2e_p3 log views sent directs && C08_e2e_p1 expected returned lens pe pok && C08_conserved samples
+  then 0%N else 2%N.
+Definition gate_verdicts (cs : list gcase) : list N := map gate_verdict cs.
